@@ -8,7 +8,7 @@ some function on the path, or lexically around the mutating statement itself).
 
 Mutating statement (syntactic):
   M1  assignment / augmented assignment / del whose target is (a subscript chain over) an attribute named
-      _oids, _paths, _changeset_storage, _changeset, _dirtyset, requestset, excludeset
+      _oids, _paths, _changeset_storage, _changeset, _dirtyset, requestset, excludeset, _kids_moving
   M2  call of add/discard/remove/pop/clear/update/setdefault/append/popitem on (a subscript chain over) such an attribute
   M3  attribute store on a subscript receiver  `ent[side].x = v`  (a side attribute; goes through SideState.__setattr__)
       unless the receiver chain names a non-entry table (emgrs, providers, _root_*)
@@ -37,7 +37,7 @@ REPO = os.environ.get("VERIF_REPO", "/repo")
 HERE = os.path.dirname(os.path.dirname(os.path.abspath(__file__)))
 FILES = ["cloudsync/sync/state.py", "cloudsync/event.py", "cloudsync/sync/manager.py", "cloudsync/cs.py",
          "cloudsync/smartsync.py", "cloudsync/notification.py"]
-STATE_ATTRS = {"_oids", "_paths", "_changeset_storage", "_changeset", "_dirtyset", "requestset", "excludeset"}
+STATE_ATTRS = {"_oids", "_paths", "_changeset_storage", "_changeset", "_dirtyset", "requestset", "excludeset", "_kids_moving"}
 CONTAINER_MUT = {"add", "discard", "remove", "pop", "clear", "update", "setdefault", "append", "popitem"}
 ENTRY_ATTRS = {"ignored", "priority", "storage_id"}
 ENTRY_CLASSES = {"SideState", "SyncEntry"}
